@@ -165,3 +165,41 @@ func VerifC03Pruning() {
 	vAssert("subscriber-still-receives-after-index-pruning", got == 1)
 	vReach("end")
 }
+
+// VerifC03Resubscribe: whether a client receives its own publish follows the No Local option of the subscription
+// in force - the one a later SUBSCRIBE on the same filter replaced the first with - also after the session has
+// been resumed by a new connection (the index is rebuilt from the session then).
+func VerifC03Resubscribe() {
+	s, _ := vNewServer(nil)
+	nl1, nl2 := vBool(), vBool()
+	sub := func(id uint16, nl bool) []byte {
+		opts := byte(1)
+		if nl {
+			opts |= 0x04
+		}
+		b := append(vU16b(id), 0)
+		b = append(b, vStrb("a")...)
+		b = append(b, opts)
+		return append([]byte{packets.Subscribe<<4 | 2, byte(len(b))}, b...)
+	}
+	opts := vConnOpts{ver: 5, id: "c1", clean: false, keepalive: 60, seiSet: true, sei: 100, rm: 10}
+	c := vDial(s, opts)
+	vSend(c, sub(1, nl1))
+	vSend(c, sub(2, nl2))
+	if vBool() {
+		if vBool() {
+			vHangup(c)
+		}
+		c = vDial(s, opts)
+		vReach("resumed")
+	}
+	before := vCountPublishes(c, 5, "a")
+	vSend(c, vPublishBytes("a", 7, 0, 0, false, 5))
+	got := vCountPublishes(c, 5, "a") - before
+	if nl2 {
+		vAssert("no-local-subscription-in-force-suppresses-own-publish", got == 0)
+	} else {
+		vAssert("own-publish-delivered-when-the-subscription-in-force-allows-it", got == 1)
+	}
+	vReach("end")
+}
